@@ -101,6 +101,7 @@ Proof.
   - inversion He; subst; auto.
   - inversion He; subst; auto.
   - destruct (hooks s); inversion He; subst; auto.
+  - inversion He; subst; auto.
 Qed.
 
 Lemma step_local_fut rep st t st' u :
